@@ -7,6 +7,7 @@ pub mod c05;
 pub mod c06;
 pub mod c07;
 pub mod c08;
+pub mod c11;
 pub mod c16;
 pub mod c17;
 pub mod c18;
@@ -19,6 +20,7 @@ pub fn lookup(id: &str) -> Option<fn(&mut Run)> {
         "C06" => c06::run,
         "C07" => c07::run,
         "C08" => c08::run,
+        "C11" => c11::run,
         "C16" => c16::run,
         "C17" => c17::run,
         "C18" => c18::run,
